@@ -412,7 +412,12 @@ func genRingPolys(t *rapid.T) ringPolys {
 	rp := gen.DrawRings(t, "rp", maxRings, maxN)
 	if rapid.IntRange(0, 5).Draw(t, "hug") == 0 {
 		// shell of long edges + a hole one edge of which lies along a shell edge
-		if h, ok := gen.HugRings(t, "h", gen.SpecialCenter(t, "hc"), rapid.Float64Range(0.05, 0.6).Draw(t, "hugr")); ok {
+		if rapid.Bool().Draw(t, "band") {
+			// ... the shell being a band more than 180 degrees of longitude wide
+			if h, ok := gen.HugBand(t, "hb"); ok {
+				rp = h
+			}
+		} else if h, ok := gen.HugRings(t, "h", gen.SpecialCenter(t, "hc"), rapid.Float64Range(0.05, 0.6).Draw(t, "hugr")); ok {
 			rp = h
 		}
 	}
@@ -828,6 +833,6 @@ func init() {
 		Rule:  "polygons assembled from shuffled subsets of 1..3 families of strictly nested rings about distinct cube-face centres (several top-level shells, holes, islands; a quarter of the families is a shell of 4..8 long edges and a triangular hole one edge of which lies strictly inside but within rounding of a shell edge; Validate rejections are decided the same way as in polygon_rings), each polygon optionally complemented with Polygon.Invert(); truth = set algebra on band atoms + the rest of the sphere; Contains/Intersects (symmetric), the complement laws with Invert()ed copies, double inversion, ContainsPoint at the family centres. Non-trivial: A has ≥ 2 top-level shells or a polygon is complemented.",
 		Quick: 24000, Thorough: 300000}, genMultiPolys, checkMultiPolys)
 	ev.Define("polygon_rings", ev.Options{
-		Rule:  "polygons assembled by PolygonFromLoops from shuffled subsets of up to 5 (1 in 8: 15) strictly nested rings (1 in 6: a shell of 4..8 long edges and a triangular hole one edge of which lies strictly inside but within rounding of a shell edge); a polygon that Validate rejects is reported when exact predicates confirm the rings are non-crossing and properly nested, skipped otherwise: IsHole ⇔ odd number of enclosing input loops, Parent() = next enclosing selected ring; Polygon.Contains/Intersects between two such polygons = set algebra on band atoms (shared rings are bit-identical boundaries). Non-trivial: A has ≥ 2 loops and > 32 vertices.",
+		Rule:  "polygons assembled by PolygonFromLoops from shuffled subsets of up to 5 (1 in 8: 15) strictly nested rings (1 in 6: a shell of 4..8 long edges - or a band between two parallels more than 180 degrees of longitude wide - and a triangular hole one edge of which lies strictly inside but within rounding of a shell edge); a polygon that Validate rejects is reported when exact predicates confirm the rings are non-crossing and properly nested, skipped otherwise: IsHole ⇔ odd number of enclosing input loops, Parent() = next enclosing selected ring; Polygon.Contains/Intersects between two such polygons = set algebra on band atoms (shared rings are bit-identical boundaries). Non-trivial: A has ≥ 2 loops and > 32 vertices.",
 		Quick: 24000, Thorough: 300000}, genRingPolys, checkRingPolys)
 }
